@@ -11,7 +11,7 @@ from harness import gen, runner, tlc   # noqa: E402
 prof, n = sys.argv[1], int(sys.argv[2])
 s0 = int(sys.argv[3]) if len(sys.argv) > 3 else 0
 scs = [gen.make_scenario(s0 + i, prof) for i in range(n)]
-traces = runner.run_scenarios(scs)
+traces = [t for t in runner.run_scenarios(scs) if not t.get('unjudged') and not t.get('harness_error')]
 v, st = tlc.validate(traces, open_kf=runner.open_kf_names())
 c = collections.Counter((r['verdict'], r['clause']) for r in v.values())
 print(dict(c), st)
